@@ -259,8 +259,21 @@ fn eval_stmt(
             let iter_val = eval_expr(context, scopes, iter)
                     .context(EvalForIterFailed)?;
 
-            let pairs = value_to_pairs(&iter_val.v)
-                    .context(ConvertForIterToPairsFailed)?;
+            let pairs =
+                match value_to_pairs(&iter_val.v) {
+                    Ok(v) => v,
+                    Err(source) => {
+                        let (_, (line, col)) = iter;
+
+                        return Err(Error::ConvertForIterToPairsFailed{
+                            source: Box::new(Error::AtLoc{
+                                source: Box::new(source),
+                                line: *line,
+                                col: *col,
+                            }),
+                        });
+                    },
+                };
 
             for (key, value) in pairs {
                 let pair = value::new_list(vec![key, value]);
